@@ -199,7 +199,7 @@ def _shrink_task(v, budget_runs, budget_s):
 def write_replay(prop, tier, v, small, avoid):
     d = os.path.join(VERIF, 'replays')
     os.makedirs(d, exist_ok=True)
-    name = '%s-%s-%s.json' % (prop, hashlib.sha1(v['key'].encode()).hexdigest()[:8], v['seed'])
+    name = '%s-%s-%s-%d.json' % (prop, hashlib.sha1(v['key'].encode()).hexdigest()[:8], v['seed'], os.getpid())
     path = os.path.join(d, name)
     with open(path, 'w') as f:
         json.dump(dict(property=prop, tier=tier, seed=v['seed'], run_index=v['run_index'], finding_key=v['key'],
